@@ -80,7 +80,7 @@ def required(tier):
         + ["refusal:fit_isolated", "refusal:transform_isolated", "refusal:transform_feature_mismatch"]
         + [f"pattern:{p}" for p in PATTERNS]
     )
-    return {"mon": ["post:Sanitizer.transform", "post:Decomposer.fit"], "cover": cover, "max_refused_share": 0.5}
+    return {"mon": ["post:Sanitizer.transform", "post:Decomposer.fit", "deferred_fits_computed"], "cover": cover, "max_refused_share": 0.5}
 
 
 def evidence_extra(results, extras):
@@ -727,7 +727,14 @@ def _make_single(cls, k, case):
         kw.update(padding="exp", decay_factor=0.2)
     if cls == "ExtendedEOF":
         kw.update(tau=1, embedding=2)
+    if _deferred(case):
+        kw.update(compute=False)  # check_nans stays True: the NaN bookkeeping must not depend on deferral
     return getattr(xe.single, cls)(**kw)
+
+
+def _deferred(case):
+    """every fourth case fits with compute=False and calls compute() afterwards (in-memory data)"""
+    return bool(int(case.get("dseed", 0)) % 4 == 2)
 
 
 def _quiet(f, *a, **kw):
@@ -839,6 +846,11 @@ def _fit_single(cls, k, case, X, dim, fpe_obs=None):
     with warnings.catch_warnings(), fpe:
         warnings.simplefilter("ignore")
         model.fit(X, dim=dim)
+        if _deferred(case):
+            model.compute()
+            if fpe_obs is not None:
+                fpe_obs.count("deferred_fits_computed")
+                fpe_obs.cell("deferred:True")
     if fpe_obs is not None and fpe.events:
         fpe_obs.note("fp_events", fpe.events)
         fpe_obs.count("fpe:events", sum(fpe.events.values()))
